@@ -987,6 +987,9 @@ DEFAULT_LAYOUT = {
     "folders": None,          # list of lists of data-member indices (in order); None = one solid folder
     "chains": None,           # per folder: list of (name, params); None = [("COPY", {})]
     "numunpack_omit": True,   # omit NumUnpackStream when every folder has exactly one substream
+    "substreams_omit": False, # leave the whole SubStreamsInfo section out (legal when every folder holds exactly one stream
+                              # and no per-substream CRC is to be stored: sizes and CRCs are then the folders')
+    "startpos": False,        # write a kStartPos property (all zero) into FilesInfo
     "crc": "substream",       # "substream" | "folder" | "none" | "both"
     "pack_crc": False,
     "packpos": 0,
@@ -1039,7 +1042,8 @@ def write(members: list[dict], layout: dict | None = None, password: str | None 
     tk = Tokens()
     tk.id(K_HEADER, "Header")
     if finfo:
-        tk.extend(_streams_tokens(finfo, L, L["packpos"], "Main", K_MAINSTREAMS))
+        omit = bool(L.get("substreams_omit")) and all(f["n"] == 1 for f in finfo) and L["crc"] in ("folder", "none")
+        tk.extend(_streams_tokens(finfo, L, L["packpos"], "Main", K_MAINSTREAMS, substreams=not omit))
     if members:
         tk.extend(_files_tokens(members, data_idx, L))
     tk.id(K_END, "Header.end")
@@ -1217,6 +1221,13 @@ def _files_tokens(members, data_idx, L) -> Tokens:
             if v is not None:
                 inner.u32(v, f"Files.attr[{i}]")
         _prop(tk, K_ATTR, inner, "Files.attr")
+    if L.get("startpos"):
+        inner = Tokens()
+        _alldef(inner, [True] * len(members), "Files.startpos", L["alldef_shortcut"])
+        inner.byte(0, "Files.startpos.external")
+        for i in range(len(members)):
+            inner.u64(0, f"Files.startpos[{i}]")
+        _prop(tk, K_STARTPOS, inner, "Files.startpos")
     tk.id(K_END, "Files.end")
     return tk
 
